@@ -248,7 +248,7 @@ func closureTables(repo string, cfg *ast.FuncDecl, fsetRun *token.FileSet, run *
 		case !hasStmt(ri, "value = genValue(mxn)") || !hasStmt(ri, "mxn := n.child[1]") || !hasStmt(ri, "index2 := index0 - 1"):
 			fact("rangeInt keeps the value object of the bound", "unrecognised: the bound is not genValue(n.child[1]) / the max slot is not index0 - 1")
 		case hasStmt(ri, "f.data[index2] = value(f)"):
-			// before 231dea3 (F51): the hidden slot takes the value object — a variable's own cell
+			// before 716c992 (F51): the hidden slot takes the value object — a variable's own cell
 			fact("rangeInt keeps the value object of the bound", "true")
 		case hasStmt(ri, "f.data[index2].SetInt(value(f).Int())"):
 			// the bound is copied when the loop is entered
@@ -311,7 +311,7 @@ func closureTables(repo string, cfg *ast.FuncDecl, fsetRun *token.FileSet, run *
 			fact(redeclFact, msg)
 		} else {
 			add("case assignStmt, defineStmt: define allocates a slot", nodeHash(defIf))
-			// before 1c8103f (F52): `if fi != nil && dest.ident == fi.ident { n.gen = nop; break }`;
+			// before 26ad67e (F52): `if fi != nil && dest.ident == fi.ident { n.gen = nop; break }`;
 			// since: `case n.kind == defineStmt && isLoopVarCopy(n.anc, dest.ident, sc):` with an empty body,
 			// so that the declaration takes a slot of its own like any new name
 			newClause := false
